@@ -272,7 +272,7 @@ _EXTRA7 = {
  "C09": " Seventh round: (R-LOCK-9) forUpdate is never invented: it comes from the user's FOR UPDATE or from being the target of a data-changing statement.",
  "C11": " Seventh round: (R-PATH-2) a path used by a clean-up after user statements ran (the removal of an empty --out file) is absolute, because CHDIR changes the working directory. (R-MTX-2) registered: a self-deadlocked run can only be killed, which leaves the lock files.",
  "C12": " Seventh round: (R-PAR-5, engine E11) the task ranges tile the input: RecordRange read path by path as polynomials over (task index, recordLen, Number, recordLen/Number) gives start(0) = 0, end(i) = start(i+1), end(last) = recordLen, empty ranges only beyond the last row; every consumer walks exactly [start, end); every task function is started for each index 0 … Number−1 — the rows the workers handle are a partition of the input for every --cpu. (R-CACHE-5) a cache hit compares the requested import options (known finding, two keys: the first loader wins and the order of first loads depends on the schedule); (R-PAR-17) a transaction file handle is used inside the critical section that took it; (R-ORD-2).",
- "C13": " Seventh round: (R-PAR-5) the workers' row ranges are disjoint (premise of R-PAR-1's index-partitioned writes). (R-PAR-17); (R-PAR-18) only the statement-level processor stores results in the Transaction; (R-LKS-1) every field a struct's methods write under its mutex is accessed under it (known finding, seven keys on Cursor); R-ALIAS-1 extended to slabs reached through closures / helpers and to slice fields grown in place.",
+ "C13": " Seventh round: (R-PAR-5) the workers' row ranges are disjoint (premise of R-PAR-1's index-partitioned writes). (R-PAR-17); (R-PAR-18) only the statement-level processor stores results in the Transaction; (R-PAR-20) between a go statement and the join the spawner only spawns; (R-LKS-1) every field a struct's methods write under its mutex is accessed under it (known finding, seven keys on Cursor); R-ALIAS-1 extended to slabs reached through closures / helpers and to slice fields grown in place.",
  "C14": " Seventh round: R-ALIAS-1 extended (rows of a scratch view are never carved out of one block; derived caches do not share backing arrays); R-POOL-3 identifies pool constructors by role.",
  "C15": " Seventh round: (R-SCP-11) a variable is born with its initial value — no name of a declaration exists (as NULL) while its own initial value is evaluated.",
  "C16": " Seventh round: (R-CUR-10) the range / open status of a cursor is consulted only by the CURSOR … IS … expressions — loops and fetches are driven by what Fetch returns; (R-CMP-10) IS NOT IN RANGE / IS NOT OPEN negate with ternary.Not. (R-CUR-9) FETCH RELATIVE computes index + number only on paths whose branch conditions bound the sum on both sides (it cannot wrap around) — genuine defect repaired (be64c59); R-CUR-4 accepts a saturated move only where the branch condition proves that index + number lies on or beyond the boundary that is stored instead. (R-INTO-1) every variable of an INTO list is assigned on every successful return — genuine defect repaired: an out-of-range FETCH left the previous row in the variables; (R-LKS-1).",
